@@ -37,6 +37,8 @@ func (c *mapCache) Get(k interface{}) (interface{}, bool) {
 	return v, ok
 }
 
+const raceProxyTimeout = 250 * time.Millisecond
+
 type fakeRT struct{ n int64 }
 
 func (f *fakeRT) RoundTrip(req *http.Request) (*http.Response, error) {
@@ -44,6 +46,11 @@ func (f *fakeRT) RoundTrip(req *http.Request) (*http.Response, error) {
 	n := atomic.AddInt64(&f.n, 1)
 	if n%17 == 0 {
 		return nil, fmt.Errorf("scripted transport error")
+	}
+	if n%23 == 0 {
+		// an upstream that answers only after the proxy's request timeout and does not look at the
+		// request context: the handler must still be the only one touching its buffers
+		time.Sleep(raceProxyTimeout + 150*time.Millisecond)
 	}
 	id := uint16(0)
 	if len(body) >= 2 {
@@ -162,7 +169,7 @@ func init() {
 		addr := "127.0.0.1:" + fmt.Sprint(freePort())
 		ctx, cancel := context.WithCancel(context.Background())
 		p := proxy.Proxy{Addrs: []string{addr}, Upstream: res, LocalResolver: discovery.Resolver{hosts},
-			DiscoveryResolver: disc, BogusPriv: true, Timeout: time.Second, MaxInflightRequests: 64}
+			DiscoveryResolver: disc, BogusPriv: true, Timeout: raceProxyTimeout, MaxInflightRequests: 64}
 		done := make(chan error, 1)
 		go func() { done <- p.ListenAndServe(ctx) }()
 		time.Sleep(150 * time.Millisecond)
